@@ -120,7 +120,9 @@ Definition parse_return (ce cq : N) (b : option N) (ts : list tok) : res :=
 Definition family (kind : N) (d : nat) : list tok :=
   match kind with
   | 3 | 4 => repeat TPre d ++ [TAtom]                                  (* neg, not *)
-  | 7 => repeat TOpen d ++ [TOpen; TAtom; TClose] ++ repeat TClose d   (* x[ x[ ... ] ]: the indexed list literal adds a level *)
+  | 7 => repeat TOpen d ++ [TAtom; TPost] ++ repeat TClose d           (* x[ x[ .. ] ]: indexing is a postfix step whose operand is parsed one level
+                                                                          down; TPost has no operand, so the family is d nested TOpen plus one postfix
+                                                                          step at the innermost level: same recursion depth, same use of the budget *)
   | 8 => repeat TOpen d ++ [TOpen; TAtom; TClose] ++ repeat TClose d   (* list comprehension over a list literal *)
   | _ => repeat TOpen d ++ [TAtom] ++ repeat TClose d                  (* paren list map func case *)
   end.
